@@ -69,6 +69,7 @@ pub fn e1_jobs(prop: &str, tier: Tier) -> (Vec<E1Job>, usize) {
     let pd = |d| E1Job { profile: Profile::D { access: d_acc.clone() }, depth: d, alt_map: false };
     let pe = |m, rich, d| E1Job { profile: Profile::E { inner_max: m, rich }, depth: d, alt_map: false };
     let pf = |d| E1Job { profile: Profile::F, depth: d, alt_map: false };
+    let pz = |m, d| E1Job { profile: Profile::Z { inner_max: m }, depth: d, alt_map: false };
     let pn = |d| E1Job { profile: Profile::N, depth: d, alt_map: false };
     let pill = |d| E1Job { profile: Profile::Ill, depth: d, alt_map: false };
     let fam = if q { 64 } else { 400 };
@@ -87,6 +88,15 @@ pub fn e1_jobs(prop: &str, tier: Tier) -> (Vec<E1Job>, usize) {
         "C20" => if q { vec![pn(5), pb(3), pc(7), pd(5), pe(1, true, 2), paj(4), pa15(3)] } else { vec![pn(5), pb(4), pc(8), pd(6), pe(1, true, 2)] },
         _ => vec![],
     };
+    let mut jobs = jobs;
+    if !jobs.is_empty() {
+        if q {
+            jobs.insert(0, pz(2, 2));
+        } else {
+            jobs.insert(0, pz(3, 2));
+            jobs.insert(1, pz(1, 3));
+        }
+    }
     let fam_n = match prop {
         "C01" | "C02" | "C04" | "C05" | "C10" | "C12" | "C13" | "C18" | "C20" | "C03" => fam,
         _ => 0,
@@ -420,7 +430,11 @@ pub fn e2_jobs(prop: &str, tier: Tier) -> Vec<E2Job> {
             jobs.push(E2Job { label: "dependency plans, 2 dispatches".into(), scenarios: scen(&nores(3), &[Mode::Dispatch, Mode::Async], &[2]), bounds: b(if q { 1 } else { 2 }), delay: false });
         }
         "C03" => {
-            jobs.push(E2Job { label: "barrier plans (resource-less or one writer)".into(), scenarios: scen(&barr(if q { 4 } else { 5 }), &[Mode::Dispatch, Mode::Par, Mode::Async], &[1]), bounds: b(if q { 2 } else { 3 }), delay: false });
+            jobs.push(E2Job { label: "barrier plans of <= 3 ops (resource-less or one writer, named and unnamed systems)".into(), scenarios: scen(&barr(3), &[Mode::Dispatch, Mode::Par, Mode::Async], &[1]), bounds: b(if q { 2 } else { 3 }), delay: false });
+            jobs.push(E2Job { label: "barrier plans of 4 ops".into(), scenarios: scen(&barr(4).into_iter().filter(|p| p.len() == 4).collect::<Vec<_>>(), &[Mode::Dispatch], &[1]), bounds: b(if q { 1 } else { 2 }), delay: false });
+            if !q {
+                jobs.push(E2Job { label: "barrier plans of 5 ops".into(), scenarios: scen(&barr(5).into_iter().filter(|p| p.len() == 5).collect::<Vec<_>>(), &[Mode::Dispatch], &[1]), bounds: b(1), delay: false });
+            }
         }
         "C07" => {
             jobs.push(E2Job { label: "small batch plans, 2 outer ops".into(), scenarios: scen(&eb(2), &[Mode::Dispatch, Mode::Par], &[1]), bounds: b(if q { 1 } else { 2 }), delay: false });
